@@ -2,6 +2,7 @@ package klevdb
 
 import (
 	"errors"
+	"fmt"
 	"sync"
 	"sync/atomic"
 	"time"
@@ -78,6 +79,14 @@ func (w *writer) NeedsRollover(rollover int64) bool {
 }
 
 func (w *writer) Publish(msgs []message.Message) (int64, error) {
+	// validate the whole batch before the first write: a failure half-way would leave
+	// the earlier messages in the files while the offsets are handed out again
+	for i := range msgs {
+		if !message.Fits(msgs[i]) {
+			return OffsetInvalid, fmt.Errorf("message too big")
+		}
+	}
+
 	nextOffset, indexTime := w.index.getNext()
 
 	items := make([]index.Item, len(msgs))
